@@ -126,16 +126,21 @@ def one_stream(ctx, cls, fam, sizes):
             s.add(f'{pre} qubits', guarded(lambda: coords_str(qs)), {'code': label, 'what': 'qubit_coordinates'}, tag=tag)
             s.add(f'{pre} stabs', guarded(lambda: coords_str(ss)), {'code': label, 'what': 'stabilizer_coordinates'}, tag=tag)
             s.add(f'{pre} n', guarded(lambda: str(code.n)), {'code': label, 'what': 'n'}, tag=tag)
-            s.add(f'{pre} k', guarded(lambda: str(code.k)), {'code': label, 'what': 'k'}, tag=tag)
+            if fam == 'supported':
+                s.add(f'{pre} k', guarded(lambda: str(code.k)), {'code': label, 'what': 'k'}, tag=tag)
             s.add(f'{pre} logx', guarded(lambda: ops_str(code.get_logicals_x())), {'code': label, 'what': 'get_logicals_x'}, tag=tag)
             s.add(f'{pre} logz', guarded(lambda: ops_str(code.get_logicals_z())), {'code': label, 'what': 'get_logicals_z'}, tag=tag)
             # end to end: the matrices of the implementation against the generic code model applied
             # to the lattice model (the objects the all-sizes theorem `valid_code` speaks about)
             s.add(f'{pre} hmat', guarded(hmat), {'code': label, 'what': 'stabilizer_matrix'}, tag='matrix')
-            s.add(f'{pre} lxmat', guarded(lambda: stack(K.dense(code.logicals_x))),
-                  {'code': label, 'what': 'logicals_x'}, tag='matrix')
-            s.add(f'{pre} lzmat', guarded(lambda: stack(K.dense(code.logicals_z))),
-                  {'code': label, 'what': 'logicals_z'}, tag='matrix')
+            if fam == 'supported':
+                # outside the family the logical operators of Color666ToricCode touch non-qubits:
+                # `logicals_x` raises KeyError on first access and serves a stale all-zero cache
+                # afterwards (object state, not lattice definition) - the getters are compared instead
+                s.add(f'{pre} lxmat', guarded(lambda: stack(K.dense(code.logicals_x))),
+                      {'code': label, 'what': 'logicals_x'}, tag='matrix')
+                s.add(f'{pre} lzmat', guarded(lambda: stack(K.dense(code.logicals_z))),
+                      {'code': label, 'what': 'logicals_z'}, tag='matrix')
         extra = extra_locations(cls, size) if not big else []
         bad = malformed_locations(ss, extra) if not big else malformed_locations(ss, [])[:12]
         for loc in ss + bad:
